@@ -32,6 +32,10 @@ pub enum Op {
     /// `Receiver::close()` without draining; the receiver object stays alive (a full channel stays full)
     CloseKeep(u16),
     Len,
+    /// subscribe through the control layer (`dispatch_async` with this connection's subscription context)
+    SubscribeVia(u16, bool),
+    /// unsubscribe through the control layer, as a request (false) or as a notification without id (true)
+    UnsubscribeVia(u16, bool),
 }
 
 #[derive(Debug, Clone, Hash, Serialize, Deserialize)]
@@ -51,6 +55,8 @@ pub fn strategy(max_ops: usize) -> impl Strategy<Value = Case> {
         1 => any::<u16>().prop_map(Op::Close),
         1 => any::<u16>().prop_map(Op::CloseKeep),
         2 => Just(Op::Len),
+        3 => (any::<u16>(), any::<bool>()).prop_map(|(c, t)| Op::SubscribeVia(c, t)),
+        2 => (any::<u16>(), any::<bool>()).prop_map(|(s, n)| Op::UnsubscribeVia(s, n)),
     ];
     (vec(0u8..CAPS.len() as u8, 1..=4), 1u8..=3, vec(op, 1..max_ops)).prop_map(|(caps, publishers, ops)| Case { caps, publishers, ops })
 }
@@ -61,6 +67,8 @@ struct Conn {
     cap: usize,
     queued: usize,
     closed: bool,
+    /// the control layer's per-connection list of owned subscription ids
+    owned: Vec<String>,
 }
 
 struct Sub {
@@ -95,11 +103,12 @@ pub fn check(case: &Case, obs: &mut Obs) -> CheckResult {
         .map(|c| {
             let cap = CAPS[*c as usize % CAPS.len()];
             let (tx, rx) = mpsc::channel::<String>(cap);
-            Conn { tx, rx: Some(rx), cap, queued: 0, closed: false }
+            Conn { tx, rx: Some(rx), cap, queued: 0, closed: false, owned: Vec::new() }
         })
         .collect();
     let mut subs: Vec<Sub> = Vec::new();
     let np = case.publishers as usize;
+    let (ctl_cfg, ctl_stats, ctl_cw) = (srtla_send::config::DynamicConfig::new(), srtla_send::stats::SharedStats::new(), srtla_core::priority::CriticalWindow::new());
     // per (publisher, topic) event counter
     let mut counters = vec![[0u64; 2]; np];
     // every publish: (publisher, topic, n, op index)
@@ -181,6 +190,66 @@ pub fn check(case: &Case, obs: &mut Obs) -> CheckResult {
                     subs[si].unsub_at = Some(oi);
                 }
                 if conns[subs[si].conn].queued > 0 {
+                    raced = true;
+                }
+            }
+            Op::SubscribeVia(c, t) => {
+                let ci = idx(*c, conns.len());
+                let topic = *t as usize;
+                let line = format!(r#"{{"jsonrpc":"2.0","id":{oi},"method":"subscribe","params":{{"topic":"{}"}}}}"#, TOPICS[topic]);
+                let resp = {
+                    let Conn { tx, owned, .. } = &mut conns[ci];
+                    let mut sctx = srtla_send::control::SubscriptionContext { hub: &hub, push_tx: tx.clone(), owned_ids: owned };
+                    block_on_simple(srtla_send::control::dispatch_async(&ctl_cfg, Some(&ctl_stats), Some(&ctl_cw), Some(&mut sctx), &line))
+                };
+                let v: Value = resp.map(|r| serde_json::from_str(&r.to_json()).unwrap_or(Value::Null)).unwrap_or(Value::Null);
+                let id = v["result"]["subscription_id"].as_str().unwrap_or("").to_string();
+                vensure!(!id.is_empty() && v["id"] == json!(oi), "subscribe-failed", "op {oi}: subscribe request answered {v}");
+                vensure!(subs.iter().all(|s| s.id != id), "subscription-id-reused", "op {oi}: subscription id {id} handed out twice");
+                vensure!(conns[ci].owned.contains(&id), "subscription-not-owned", "op {oi}: the connection's owned-id list lacks {id} after subscribe");
+                subs.push(Sub { id, conn: ci, topic, unsubscribed: false, unsub_at: None, last_seen: vec![None; np], pruned_possible: false });
+                obs.class("subscribe-via-control-layer");
+            }
+            Op::UnsubscribeVia(s, notification) => {
+                if subs.is_empty() {
+                    continue;
+                }
+                let si = idx(*s, subs.len());
+                let id = subs[si].id.clone();
+                let ci = subs[si].conn;
+                let line = if *notification {
+                    format!(r#"{{"jsonrpc":"2.0","method":"unsubscribe","params":{{"subscription_id":"{id}"}}}}"#)
+                } else {
+                    format!(r#"{{"jsonrpc":"2.0","id":{oi},"method":"unsubscribe","params":{{"subscription_id":"{id}"}}}}"#)
+                };
+                let resp = {
+                    let Conn { tx, owned, .. } = &mut conns[ci];
+                    let mut sctx = srtla_send::control::SubscriptionContext { hub: &hub, push_tx: tx.clone(), owned_ids: owned };
+                    block_on_simple(srtla_send::control::dispatch_async(&ctl_cfg, Some(&ctl_stats), Some(&ctl_cw), Some(&mut sctx), &line))
+                };
+                if *notification {
+                    vensure!(resp.is_none(), "notification-answered", "op {oi}: unsubscribe notification was answered");
+                    obs.class("unsubscribe-as-notification");
+                } else {
+                    let v: Value = resp.map(|r| serde_json::from_str(&r.to_json()).unwrap_or(Value::Null)).unwrap_or(Value::Null);
+                    let removed = v["result"]["removed"].as_bool();
+                    vensure!(removed.is_some() && v["id"] == json!(oi), "unsubscribe-failed", "op {oi}: unsubscribe request answered {v}");
+                    if !subs[si].unsubscribed && !subs[si].pruned_possible {
+                        vensure!(removed == Some(true), "unsubscribe-missed", "op {oi}: unsubscribe({id}) reported absent although it was subscribed");
+                    }
+                    if subs[si].unsubscribed {
+                        vensure!(removed == Some(false), "unsubscribe-twice", "op {oi}: second unsubscribe({id}) reported present");
+                    }
+                }
+                // the hub no longer knows the id: a second, direct unsubscribe finds nothing
+                let again = block_on_simple(hub.unsubscribe(&id));
+                vensure!(!again, "unsubscribe-not-applied", "op {oi}: unsubscribe({id}) through the control layer ({}) left the subscription in the hub", if *notification { "notification" } else { "request" });
+                vensure!(!conns[ci].owned.contains(&id), "subscription-still-owned", "op {oi}: the connection's owned-id list still holds {id} after unsubscribe");
+                subs[si].unsubscribed = true;
+                if subs[si].unsub_at.is_none() {
+                    subs[si].unsub_at = Some(oi);
+                }
+                if conns[ci].queued > 0 {
                     raced = true;
                 }
             }
